@@ -48,6 +48,9 @@ class Check(PropertyCheck):
         blocks = [b for b in blocks if b]
         self._blocks = blocks
         for _ in range(n):
+            if self.rng.chance(1, 12):
+                out.append(self.rng.choice(["ab\tcd", "+--+\t+--+\n|  |\t|  |\n+--+\t+--+", "-\t-\n \t|"]))
+                continue
             if self.rng.chance(1, 5):
                 z = clean(gen.zoo_piece(self.rng, quotes=False, tags=False, special=False))
                 if z:
